@@ -36,6 +36,8 @@ func genC09(kind string) func(r *core.Rng) any {
 			p = genPath(r, pathOpts{Kinds: kArc, MaxSegs: 3, MaxSubs: 1, Closed: 2, MaxRatio: 20})
 		case "mixed-multi":
 			p = genPath(r, pathOpts{Kinds: kAll, MaxSegs: 4, MaxSubs: 3, Closed: 2, MildCurve: true, CircArcs: true})
+		case "grid": // integer coordinates and radii, circular arcs and lines: exact-value shortcuts
+			p = genPath(r, pathOpts{Kinds: kLine | kArc, MaxSegs: 4, MaxSubs: 1, Closed: 2, Integer: true, CircArcs: true})
 		default: // mixed
 			p = genPath(r, pathOpts{Kinds: kAll, MaxSegs: 5, MaxSubs: 1, Closed: 2, MildCurve: true, CircArcs: true})
 		}
@@ -304,6 +306,7 @@ func init() {
 			{Name: "mild-elliptic-arcs", Quick: 1000, Thorough: 30000, Gen: genC09("mild-elliptic-arcs")},
 			{Name: "mixed", Quick: 1500, Thorough: 40000, Gen: genC09("mixed")},
 			{Name: "mixed-multi", Quick: 1000, Thorough: 30000, Gen: genC09("mixed-multi")},
+			{Name: "grid", Quick: 1000, Thorough: 30000, Gen: genC09("grid")},
 			// demoted (DESIGN 4.5)
 			{Name: "wild-beziers", Quick: 1000, Thorough: 30000, Gen: genC09("wild-beziers"), WitnessOnly: true, Note: "hairpins/cusps/loops: Length off by up to 5%, cut positions off by up to 2.5% of the path length (8% of cases), pieces overlapping"},
 			{Name: "elliptic-arcs", Quick: 1000, Thorough: 30000, Gen: genC09("elliptic-arcs"), WitnessOnly: true, Note: "radii ratio up to 20: Length off by up to 13% (32% of cases beyond 2%), cut positions off by up to 4%"},
